@@ -195,6 +195,9 @@ func c09Gen(r *kit.Run) (*c09Scenario, *c09Store) {
 	} else if g.Choose(8) == 0 {
 		sc.Layer = "disj"
 		return sc, &c09Store{}
+	} else if g.Choose(10) == 0 {
+		sc.Layer = "zero"
+		return sc, &c09Store{}
 	}
 	sc.Dups = g.Choose(4) == 0
 	sc.FromText = g.Choose(2) == 0
@@ -390,6 +393,19 @@ func (c09) Exec(r *kit.Run) {
 	}
 	if sc.Layer == "disj" {
 		c09ExecDisj(r, sc)
+		return
+	}
+	if sc.Layer == "zero" {
+		leftover, other := kit.Bubble(r.T, func() {
+			c09ExecZero(r, sc)
+			kit.Settle()
+		})
+		if other != nil {
+			kit.Bug("c09 zero harness panic: %v", other)
+		}
+		if leftover {
+			r.Fail("leak", "search-goroutine-alive", "a search goroutine was left behind")
+		}
 		return
 	}
 	sched := kit.NewSched(r, sc.Policy)
@@ -1232,4 +1248,129 @@ func c09BadBody(stamp string) string {
 		n += int(ch)
 	}
 	return []string{"1", "true ; 1", "atom(a) ; 2 ; true", "(true, 3)"}[n%4]
+}
+
+// c09ExecZero: a predicate without arguments and with duplicate facts (its clauses cannot be told apart by what they
+// answer, only by how many there are). One retract/1 enumeration is open while single retracts and assertz calls go by;
+// a step of the enumeration removes the clause of its call-time snapshot that it has reached if that clause is still
+// there, and nothing otherwise - in particular never a clause asserted after the enumeration was opened. Whether a step
+// that reaches a clause somebody else has removed answers or moves on is left open, so the count is compared only when
+// no such step can have happened yet, and at the end (where both readings agree).
+func c09ExecZero(r *kit.Run, sc *c09Scenario) {
+	g := r.Tape.Lane("gen")
+	interp := prolog.New(strings.NewReader(""), io.Discard)
+	if err := interp.Exec(":- dynamic(z0/0).\n"); err != nil {
+		kit.Bug("c09 zero: %v", err)
+	}
+	n := 1 + g.Choose(4)
+	var db []int // ids of the clauses in the database, in order
+	nextID := 0
+	add := func() {
+		if err := interp.QuerySolution("assertz(z0).").Err(); err != nil {
+			kit.Bug("c09 zero assertz: %v", err)
+		}
+		nextID++
+		db = append(db, nextID)
+	}
+	for i := 0; i < n; i++ {
+		add()
+	}
+	count := func() int {
+		sol := interp.QuerySolution("findall(x, z0, L), length(L, N).")
+		v := kit.NewVars()
+		if err := sol.Scan(v); err != nil {
+			kit.Bug("c09 zero count: %v", err)
+		}
+		c := 0
+		fmt.Sscanf(v.Get("N"), "%d", &c)
+		return c
+	}
+	sols, err := interp.Query("retract(z0).")
+	if err != nil {
+		kit.Bug("c09 zero: %v", err)
+	}
+	defer sols.Close()
+	var snapshot []int
+	started, pos, ghost, done, murky := false, 0, false, false, false
+	var hist []string
+	remove := func(id int) bool {
+		for i, x := range db {
+			if x == id {
+				db = append(db[:i:i], db[i+1:]...)
+				return true
+			}
+		}
+		return false
+	}
+	nOps := 2 + g.Choose(8)
+	for i := 0; i <= nOps && !r.Failed(); i++ {
+		op := g.Weighted(5, 3, 3)
+		if i == nOps {
+			op = 3 // run the enumeration to its end
+		}
+		switch op {
+		case 0, 3:
+			for !done {
+				if !started {
+					started, snapshot = true, append([]int(nil), db...)
+				}
+				ok := sols.Next()
+				hist = append(hist, fmt.Sprintf("step->%v", ok))
+				if !ok {
+					done = true
+					if err := sols.Err(); err != nil {
+						r.Fail("answer-mismatch", "zero-arity:enumeration-raised", "the open retract(z0) raised %s (history %v)", kit.CanonErr(err), hist)
+						return
+					}
+					break
+				}
+				// the model: the next snapshot clause; gone already = nothing is removed by this step (if the implementation
+				// moves on instead of answering, it has removed the next live one: the count is ambiguous from here on)
+				for pos < len(snapshot) {
+					id := snapshot[pos]
+					pos++
+					if remove(id) {
+						break
+					}
+					ghost = true
+					break
+				}
+				if op == 0 {
+					break
+				}
+			}
+			if op == 3 && ghost {
+				// both readings agree once the enumeration is over: every snapshot clause is gone, nothing else is
+				for pos < len(snapshot) {
+					remove(snapshot[pos])
+					pos++
+				}
+			}
+		case 1:
+			ok := interp.QuerySolution("retract(z0).").Err() == nil
+			hist = append(hist, fmt.Sprintf("retract->%v", ok))
+			if ghost {
+				murky = true // which clause is the first one now depends on the reading: the final count is not asserted either
+			}
+			if ok != (len(db) > 0) && !ghost {
+				r.Fail("answer-mismatch", "zero-arity:single-retract", "retract(z0) succeeded: %v with %d clauses in the database (history %v)", ok, len(db), hist)
+				return
+			}
+			if len(db) > 0 {
+				db = db[1:]
+			}
+		case 2:
+			add()
+			hist = append(hist, "assertz")
+		}
+		if !ghost || (i == nOps && done && !murky) {
+			if got := count(); got != len(db) {
+				r.Fail("db-mismatch", "zero-arity:clause-count", "z0/0 has %d clauses, the model %d (initially %d duplicates, one retract(z0) enumeration open; history %v)", got, len(db), n, hist)
+				return
+			}
+		}
+	}
+	r.Logf("zero-arity layer: %d initial, history %v, final %d", n, hist, len(db))
+	r.Out.NonTrivial = ghost
+	r.Out.ScenarioKey = fmt.Sprintf("zero|%d|%v", n, hist)
 }
